@@ -371,7 +371,7 @@ Section MgrProofs.
     - apply tab_eqb_refl.
     - unfold do_flush, flush_call. destruct (pend_empty st) eqn:PE; cbn [snd ok_step].
       + cbn. apply opt_eqb_refl. exact tab_eqb_refl.
-      + unfold call_eqb. cbn. rewrite !tab_eqb_refl, !keys_eqb_refl. reflexivity.
+      + cbn. rewrite !tab_eqb_refl. reflexivity.
     - destruct (pend_empty st) eqn:PE; [|apply tab_eqb_refl].
       rewrite (P eq_refl). apply tab_eqb_refl.
   Qed.
